@@ -200,7 +200,9 @@ def run(chk):
             st = m.acc_stats(probe)
         comp = -0.5 * (((probe[None, :, :] - mu[:, None, :]) ** 2 / var[:, None, :]).sum(-1) + np.log(2 * np.pi * var).sum(-1)[:, None])
         alive = [c for c in range(C) if c != z]
-        want = np.log(sum(wz[c] * np.exp(comp[c]) for c in alive))
+        # (log-sum-exp of the live terms, shifted by their maximum: exp of a term near -740 is a subnormal with a handful of bits)
+        lw_ = np.array([np.log(wz[c]) + comp[c] for c in alive])
+        want = lw_.max(axis=0) + np.log(np.exp(lw_ - lw_.max(axis=0)).sum(axis=0))
         chk.count(1, key=("weight set to exactly 0", C))
         if not (np.allclose(ll, want, rtol=1e-10, atol=1e-10) and float(np.asarray(st.n)[z]) == 0.0):
             chk.fail("after assigning weights %s (component %d pruned) the machine scores %s instead of %s and gives that component the occupancy %.6g (a stale log-weight survives)"
